@@ -87,7 +87,7 @@ let () =
       let get k d = List.fold_left (fun acc kv -> match String.split_on_char '=' kv with [k'; v] when k' = k -> v | _ -> acc) d (split_on ',' opts) in
       let lim = Ops_parse.limits_of "D" false in
       let cfg = { c_lim = lim; c_max_content = n_of_decstr (get "maxc" "1048576"); c_max_chunk = n_of_decstr (get "maxk" "1048576");
-                  c_translate_head = (get "xlate" "1" = "1"); c_concat = (get "chunk" "0" <> "1") } in
+                  c_translate_head = (get "xlate" "1" = "1"); c_concat = (get "chunk" "0" <> "1"); c_defer_continue = false } in
       let o = { o_tls = (flav = "tls"); o_app = n_of_int (match get "app" "sync" with "sync" -> 0 | "async" -> 1 | _ -> 2);
                 o_chunk = (get "chunk" "0" = "1"); o_cont = (get "cont" "0" = "1"); o_inv = (get "inv" "0" = "1");
                 o_trace = (get "trace" "0" = "1"); o_autod = (get "autod" "0" = "1"); o_cfg = cfg } in
